@@ -2,15 +2,36 @@
    Full-strength statement: C02_statement (Cluster/Statements.v): in every execution without membership changes -
    every delivery order, loss, duplication, delay, crash at any storage write, restart, snapshot - two nodes that
    are leader in the same term, at any two points of the execution, are the same node.  PROVED below
-   (C02_election_safety); the node-level theorems that follow it are the facts about single sections the proof
+   (C02_election_safety), and so is the second sentence of the property (C02_requests_of_a_term_name_one_leader: all
+   AppendEntries / InstallSnapshot requests ever sent that carry one term name one leader - the winner of that
+   term); the node-level theorems that follow it are the facts about single sections the proof
    and the correspondence check rest on.  The tie of the model to the code is the lock-step co-simulation. *)
 From RaftV Require Import Cluster.Statements Proofs.RVSpec Proofs.AESpec Proofs.ElectSpec Proofs.Names Proofs.ElectSafety.
+From RaftV Require Import Cluster.World Proofs.ConfStatic Proofs.LogInv Proofs.OneLeader.
 Open Scope N_scope.
 
 (* C02, first clause, at full strength: every cluster size, every schedule, no bound on terms or steps *)
 Theorem C02_election_safety : C02_statement.
 Proof. exact election_safety. Qed.
 Print Assumptions C02_election_safety.
+
+(* C02, second sentence, cluster level, every execution without membership changes (snapshots, crashes, restarts,
+   any delivery order included): any two AppendEntries / InstallSnapshot requests in the history of RPCs that carry
+   the same term name the same leader ... *)
+Theorem C02_requests_of_a_term_name_one_leader : forall ids boot et ld ls, static ls = true ->
+  let w := run (init_world ids boot et ld) ls in
+  forall k1 k2 T, In k1 (w_calls w) -> In k2 (w_calls w) -> req_term k1 = Some T -> req_term k2 = Some T ->
+    req_leader k1 = req_leader k2.
+Proof. exact requests_of_a_term_name_one_leader. Qed.
+Print Assumptions C02_requests_of_a_term_name_one_leader.
+
+(* ... namely their sender, which has won that term (a voter backed by recorded votes of a majority). *)
+Theorem C02_requests_of_a_term_come_from_its_winner : forall ids boot et ld ls, static ls = true ->
+  let w := run (init_world ids boot et ld) ls in
+  forall k T, In k (w_calls w) -> req_term k = Some T ->
+    lead (bootconf boot) (w_calls w) (c_src k) T /\ req_leader k = Some (c_src k).
+Proof. exact requests_of_a_term_come_from_its_winner. Qed.
+Print Assumptions C02_requests_of_a_term_come_from_its_winner.
 
 (* the statement is not vacuous: a static schedule of three nodes after which node 0 leads term 1 *)
 Definition c02_labels : list label :=
